@@ -247,6 +247,7 @@ type condInfo struct {
 	C      AV     // constant it is compared with (==)
 	TypeOf string // for type-assert ok flags: the asserted operand
 	Type   string // asserted type
+	Iface  bool   // the asserted type is an interface: success tells what the value can do, not which type it has
 }
 
 type Machine struct {
@@ -380,6 +381,7 @@ func (m *Machine) enterBlock(st *State, b *ssa.BasicBlock) bool {
 		// the counter of `for k := 0; k < len(xs); k++` is a fresh symbolic index per iteration, like a range loop's
 		name := "rangeidx:" + fr.ID + ":" + ctr.Name()
 		m.forget(st, name)
+		m.forgetRangeElement(st, fr, b)
 		fr.Vals[ctr] = Sym(name)
 	}
 	if ctr, list := revRangeCounter(b); ctr != nil {
@@ -545,7 +547,9 @@ func (m *Machine) assume(st *State, cond AV, taken bool) {
 		}
 		if ci.TypeOf != "" {
 			if val {
-				st.Facts["type:"+ci.TypeOf] = StrV(ci.Type)
+				if !ci.Iface {
+					st.Facts["type:"+ci.TypeOf] = StrV(ci.Type)
+				}
 			} else {
 				k := "nottype:" + ci.TypeOf
 				prev := st.Facts[k]
@@ -852,7 +856,11 @@ func (m *Machine) step(st *State, fr *Frame, in ssa.Instruction) {
 			// the hidden counter of a lowered `for range slice`: a fresh symbolic index per iteration
 			name := "rangeidx:" + fr.ID + ":" + x.Name()
 			m.forget(st, name)
+			m.forgetRangeElement(st, fr, x.Block())
 			set(x, Sym(name))
+			return
+		}
+		if m.structEquality(st, x, ev(x.X), ev(x.Y)) {
 			return
 		}
 		set(x, m.binop(st, x, m.resolve(st, ev(x.X)), m.resolve(st, ev(x.Y))))
@@ -974,7 +982,7 @@ func (m *Machine) step(st *State, fr *Frame, in ssa.Instruction) {
 				okAV = BoolV(false)
 			} else {
 				okAV = Sym(okName)
-				m.conds[okName] = condInfo{TypeOf: a.S, Type: tname}
+				m.conds[okName] = condInfo{TypeOf: a.S, Type: tname, Iface: isInterfaceType(x.AssertedType)}
 			}
 			set(x, AV{K: KTuple, T: []AV{a, okAV}})
 		} else {
@@ -1124,6 +1132,10 @@ func (m *Machine) step(st *State, fr *Frame, in ssa.Instruction) {
 			inner := strings.TrimSuffix(strings.TrimPrefix(it.S, "range("), ")")
 			v = Sym(inner + "[range]")
 			k = Sym("rangekey(" + inner + ")")
+			// the element and key of this iteration are new ones: what the path found out about the previous ones is
+			// not known of them
+			m.forget(st, v.S)
+			m.forget(st, k.S)
 		}
 		set(x, AV{K: KTuple, T: []AV{Sym(okName), k, v}})
 		m.Model.Instr(m, st, x, []AV{it})
@@ -1162,6 +1174,29 @@ func isStdSliceSearch(callee *ssa.Function) bool {
 		name = name[:i]
 	}
 	return name == "ContainsFunc" || name == "IndexFunc"
+}
+
+// forgetRangeElement: the loop headed (or tested) in block b ranges over a slice X with a fresh symbolic index per
+// iteration; the element X[range] of the new iteration is a new value — facts found about the previous one are dropped.
+func (m *Machine) forgetRangeElement(st *State, fr *Frame, b *ssa.BasicBlock) {
+	if len(b.Instrs) == 0 {
+		return
+	}
+	iff, ok := b.Instrs[len(b.Instrs)-1].(*ssa.If)
+	if !ok {
+		return
+	}
+	bo, ok := iff.Cond.(*ssa.BinOp)
+	if !ok {
+		return
+	}
+	la := lenArg(bo.Y)
+	if la == nil {
+		return
+	}
+	if x := m.eval(st, fr, la); x.K == KSym && x.S != "" {
+		m.forget(st, x.S+"[range]")
+	}
 }
 
 // baseFnName: the function's name without the type arguments of an instantiation.
@@ -1299,7 +1334,76 @@ func capInt(i int64) AV {
 }
 
 func (m *Machine) binop(st *State, x *ssa.BinOp, a, b AV) AV {
-	op := x.Op
+	return m.binopT(st, x.Op, x.X.Type(), a, b)
+}
+
+// structEquality decides v == w for two struct values of a small struct type with basic fields, field by field: the
+// state is split into "all fields equal" (every undecided field comparison assumed true) and, for each undecided field,
+// "the fields before it equal, this one not" — so that what a comparison with a written-out struct tells about each
+// field is known afterwards exactly as after a chain of && tests.  false if the comparison is not of that kind.
+func (m *Machine) structEquality(st *State, x *ssa.BinOp, a, b AV) bool {
+	stt, ok := x.X.Type().Underlying().(*types.Struct)
+	if !ok || stt.NumFields() == 0 || stt.NumFields() > 4 || a.K != KSym || b.K != KSym || (x.Op != token.EQL && x.Op != token.NEQ) {
+		return false
+	}
+	var conds []AV
+	for i := 0; i < stt.NumFields(); i++ {
+		f := stt.Field(i)
+		if _, basic := f.Type().Underlying().(*types.Basic); !basic {
+			return false
+		}
+		fa := m.resolve(st, m.load(st, a.S+"."+f.Name(), f.Type()))
+		fb := m.resolve(st, m.load(st, b.S+"."+f.Name(), f.Type()))
+		c := m.resolve(st, m.binopT(st, token.EQL, f.Type(), fa, fb))
+		if c.K != KBool && c.K != KSym {
+			return false
+		}
+		conds = append(conds, c)
+	}
+	result := func(equal bool) AV { return BoolV(equal == (x.Op == token.EQL)) }
+	// a field known to differ settles it
+	for _, c := range conds {
+		if c.K == KBool && !c.B {
+			st.Top().Vals[x] = result(false)
+			return true
+		}
+	}
+	var open []AV
+	for _, c := range conds {
+		if c.K == KSym {
+			open = append(open, c)
+		}
+	}
+	if len(open) == 0 {
+		st.Top().Vals[x] = result(true)
+		return true
+	}
+	// "differs at field i" for every undecided field but the last one forks; the current state goes on as "differs at
+	// the last undecided field", and one more fork is "all equal"
+	eq := st.Clone()
+	for _, c := range open {
+		m.assume(eq, c, true)
+	}
+	eq.Top().Vals[x] = result(true)
+	m.fork(eq)
+	for i := 0; i < len(open)-1; i++ {
+		ns := st.Clone()
+		for _, c := range open[:i] {
+			m.assume(ns, c, true)
+		}
+		m.assume(ns, open[i], false)
+		ns.Top().Vals[x] = result(false)
+		m.fork(ns)
+	}
+	for _, c := range open[:len(open)-1] {
+		m.assume(st, c, true)
+	}
+	m.assume(st, open[len(open)-1], false)
+	st.Top().Vals[x] = result(false)
+	return true
+}
+
+func (m *Machine) binopT(st *State, op token.Token, operandT types.Type, a, b AV) AV {
 	if a.K == KInt && b.K == KInt {
 		switch op {
 		case token.ADD:
@@ -1338,7 +1442,7 @@ func (m *Machine) binop(st *State, x *ssa.BinOp, a, b AV) AV {
 		if a.K == KBool {
 			sym, k = b, a
 		}
-		if bt, ok := x.X.Type().Underlying().(*types.Basic); ok && bt.Info()&types.IsBoolean != 0 {
+		if bt, ok := operandT.Underlying().(*types.Basic); ok && bt.Info()&types.IsBoolean != 0 {
 			same := (op == token.EQL) == k.B
 			if !same {
 				sym.Neg = !sym.Neg
